@@ -465,6 +465,9 @@ func Generate(seed uint64, prop, tier string) *Plan {
 					op.K = "duplistener-bad"
 				case x == 5:
 					op.K = "register-none"
+					if nconn > 0 && r.Chance(1, 2) {
+						op.K = "loop-misuse"
+					}
 				case x == 6 && ctlHeavy:
 					op.K, op.N = "stopctx", r.Intn(3)
 				case (x == 7 || x == 8) && dialIdx < len(p.Conns):
@@ -484,7 +487,7 @@ func Generate(seed uint64, prop, tier string) *Plan {
 				// the same calls once the shutdown has completed
 				up.Ops = append(up.Ops, UserOp{K: "await-stop"})
 				for j := r.Range(1, 4); j > 0; j-- {
-					k := []string{"validate", "countx", "dup", "duplistener", "register-none", "stopctx", "stopctx"}[r.Intn(7)]
+					k := []string{"validate", "countx", "dup", "duplistener", "register-none", "stopctx", "stopctx", "loop-misuse"}[r.Intn(8)]
 					up.Ops = append(up.Ops, UserOp{K: k, N: r.Intn(3)})
 				}
 			}
